@@ -87,13 +87,23 @@ pub fn build_plan(property: &str, tier: &str, seed: u64, ctx: &Arc<ExecCtx>) -> 
             for c in en.cases {
                 plan.units.push(Unit::C14Case(c));
             }
+            let mut n_transient = 0;
+            for cfg in props::c14::base_configs().iter().take(if quick { 2 } else { 7 }) {
+                for t in props::c14::transient_traces(ctx, cfg, !quick)? {
+                    plan.units.push(Unit::Fixed(Box::new(t)));
+                    n_transient += 1;
+                }
+            }
+            if let Some(o) = plan.extra.as_object_mut() {
+                o.insert("enumerated_transient_read_errors".into(), serde_json::json!(n_transient));
+            }
             if ctx.zipped_base.is_some() {
                 for t in props::c14::zipped_directed() {
                     plan.units.push(Unit::Fixed(Box::new(t)));
                 }
             }
             seeded(&mut plan, "c14-random", if quick { 600 } else { 20_000 }, 14);
-            plan.rule = "enumeration: every (base configuration x file the fault-free warm-up reads x applicable fault kind x placement phase {cold, warm, before-lazy-full-unicode, switch-into, switch-back-out} x repair mode {CheckRuleFiles=All + later mtime, re-pointing set_rules_dir}) as one trace, plus seeded random fault/call/repair histories; a case is non-trivial when its fault was applied and at least one API call consumed faulted bytes (or probed a removed path) or an injected read error fired; distinct = distinct trace hashes Every probe round starts with one rotating getter (overview, braille or speech) on the expression that is still current, before the round sets its expression again, compared with a fresh session; phase SwitchTouchBack makes ONE call in the faulted configuration and switches back.".into();
+            plan.rule = "enumeration: every (base configuration x file the fault-free warm-up reads x applicable fault kind x placement phase {cold, warm, before-lazy-full-unicode, switch-into, switch-back-out} x repair mode {CheckRuleFiles=All + later mtime, re-pointing set_rules_dir}) as one trace, plus every single read of a cold start failing once (transient EIO, no repair, retry under CheckRuleFiles=All / re-initialisation under Prefs), plus seeded random fault/call/repair histories; a case is non-trivial when its fault was applied and at least one API call consumed faulted bytes (or probed a removed path) or an injected read error fired; distinct = distinct trace hashes Every probe round starts with one rotating getter (overview, braille or speech) on the expression that is still current, before the round sets its expression again, compared with a fresh session; phase SwitchTouchBack makes ONE call in the faulted configuration and switches back.".into();
             plan.required_probes = vec!["fault_applied", "call_consumed_fault", "error_names_file", "recovered_identical", "equals_fresh_session", "first_getter_equals_fresh_session", "cached_table_keeps_answering"].into_iter().map(String::from).collect();
             plan.exhaustive = false;
         }
